@@ -72,7 +72,8 @@ class BooleanOptionalAction(argparse.Action):
             # also!
             after_dashes = ""
             if _conflict_prefix:
-                assert _conflict_prefix.endswith(".")
+                # NOTE: the prefix also contains the prefix given by the user in `add_arguments`, which
+                # doesn't necessarily end with a dot.
                 after_dashes = _conflict_prefix
 
             if negative_option.startswith("-"):
